@@ -6,11 +6,14 @@
    with [coll = true]: the three passes skip it, WalkPassthrough does not.
 
    Two switches select the code before / after the two repairs delivered with this property
-   (fixes/C14-1.diff, fixes/C14-2.diff); the CURRENT code is [build true true]:
-     g  = WalkPassthrough remembers the pass-through endpoints it has expanded (b.walked)
+   (fixes/C14-1.diff, fixes/C14-2.diff); the CURRENT code is [build ... true true]:
+     g  = WalkPassthrough does not re-enter a pass-through endpoint that it is already expanding further up
+          the call chain (b.walking; the entry is removed when the expansion returns).  g = false is the
+          walk as it was written: nothing stops the recursion, so the fuel (= the Go stack) can run out
      x  = a listed app that is on the exclude list is not a seed
    Outside the model: statements with no kind set (ProcessCalls panics on them; the parser never builds
-   one), the de-duplication key being the ':'-joined string rather than the 4-tuple, labels/colours. *)
+   one), the de-duplication key being the ':'-joined string rather than the 4-tuple, labels / colours,
+   the "system" view, mixin arrows, package boxes of the clustered view, the EPA view (Go oracle only). *)
 From Coq Require Import List NArith Bool.
 Import ListNotations.
 Local Open Scope N_scope.
@@ -40,15 +43,14 @@ Definition dep := (id * id * id * id)%type.     (* source app, source ep, target
 Definition dep_eqb (a b:dep) : bool :=
   match a, b with (a1,a2,a3,a4), (b1,b2,b3,b4) => N.eqb a1 b1 && N.eqb a2 b2 && N.eqb a3 b3 && N.eqb a4 b4 end.
 
-(* IntsBuilder: DepsOut, FinalApps, walked *)
-Record st := { deps : list dep; final : list id; walked : list node }.
+(* IntsBuilder: DepsOut, FinalApps *)
+Record st := { deps : list dep; final : list id }.
 
 (* AddCall *)
 Definition add_call (s:st) (d:dep) : st :=
   if existsb (dep_eqb d) (deps s) then s
-  else {| deps := deps s ++ [d]; final := final s; walked := walked s |}.
-Definition add_final (s:st) (a:id) : st := {| deps := deps s; final := final s ++ [a]; walked := walked s |}.
-Definition mark (s:st) (x:node) : st := {| deps := deps s; final := final s; walked := x :: walked s |}.
+  else {| deps := deps s ++ [d]; final := final s |}.
+Definition add_final (s:st) (a:id) : st := {| deps := deps s; final := final s ++ [a] |}.
 
 (* HasPattern(apps[target].GetAttrs(), "human") is nil-safe;
    apps[target].Endpoints[ep] dereferences the app: nil app = panic; missing endpoint = not hidden *)
@@ -99,8 +101,9 @@ Section Builder.
   Variable excludes passthrough : list id.
   Variable g x : bool.
 
-  (* ProcessExcludeAndPassthrough + WalkPassthrough; one unit of fuel per invocation *)
-  Fixpoint pep (fuel:nat) (src sep:id) (s:st) (t e:id) : outcome st :=
+  (* ProcessExcludeAndPassthrough + WalkPassthrough; one unit of fuel per invocation;
+     stk = b.walking: the pass-through endpoints being expanded by the enclosing invocations *)
+  Fixpoint pep (fuel:nat) (stk:list node) (src sep:id) (s:st) (t e:id) : outcome st :=
     match fuel with O => OutOfFuel | S f =>
       if mem t excludes then Ok s else
       if target_human m t then Ok s else
@@ -109,13 +112,12 @@ Section Builder.
           let s1 := if h then s else add_call s (src, sep, t, e) in
           let s2 := add_final s1 t in
           if mem t passthrough then
-            if g && nmem (t,e) (walked s2) then Ok s2 else
-            let s3 := if g then mark s2 (t,e) else s2 in
+            if g && nmem (t,e) stk then Ok s2 else
             match assoc t m with
             | Some a => match assoc e (eps a) with
-                        | Some ep => walk (pep f t e) s3 (body ep)
-                        | None => Ok s3 end
-            | None => Ok s3 end
+                        | Some ep => walk (pep f ((t,e)::stk) t e) s2 (body ep)
+                        | None => Ok s2 end
+            | None => Ok s2 end
           else Ok s2
       | Panic => Panic | OutOfFuel => OutOfFuel
       end
@@ -164,8 +166,8 @@ Section Builder.
     end.
 
   Definition build (fuel:nat) : outcome st :=
-    let s0 := {| deps := []; final := seeds; walked := [] |} in
-    match over_apps (pep fuel) seeds s0 with
+    let s0 := {| deps := []; final := seeds |} in
+    match over_apps (pep fuel []) seeds s0 with
     | Ok s1 => match over_apps my_callers (map fst m) s1 with
                | Ok s2 => over_apps (indirect (final s2)) (final s2) s2
                | e => e end
